@@ -78,7 +78,9 @@ def run_case(case):
                     m_ = os.lstat(q).st_mode
                     os.lchown(q, 65534, 65534)
                     if not os.path.islink(q):
-                        os.chmod(q, m_ & 0o7777)      # chown cleared the set-id bits: put the requested mode back
+                        # chown cleared the set-id bits: put the requested mode back; sources stay readable for their owner
+                        # (one unreadable file would fail the whole run and nothing could be judged)
+                        os.chmod(q, (m_ & 0o7777) | (0o400 if b"/src/" in q + b"/" or q.endswith(b"/src") else 0))
             for e in case["spec"]:
                 # (chown drops file capabilities: put the attribute back, then the mtime the setxattr did not touch anyway)
                 if "security.capability" in (e.get("xattrs") or {}):
